@@ -19,77 +19,111 @@ structure WFRegions (c : Cart) : Prop where
   music : c.music.length = 0x100
   version : c.version < 256
 
-/-- the code is stored compressed: only when that is smaller counting the 8-byte header (p8png.py:151) -/
-def storedCompressed (code : Bytes) : Prop := (compress code).length + 8 < code.length
+/-- the code is stored compressed (p8png.py:151-170): never in a version 0 cart; otherwise when that is smaller counting the
+8-byte header, or when the uncompressed form cannot represent the code -/
+def storedCompressed (code : Bytes) (v : Nat) : Prop := useCompressed code v = true
+
+/-- the uncompressed form can hold the code: NUL-terminated text of at most 0x3d00 bytes that does not read as the compressed
+header (which only readers of version ≥ 1 carts look for) -/
+def rawHolds (code : Bytes) (v : Nat) : Prop :=
+  (0 : UInt8) ∉ code ∧ (v = 0 ∨ code ≠ [0x3a, 0x63, 0x3a]) ∧ code.length ≤ codeAreaLen
+
+/-- the compressed form can hold the code: version ≥ 1, 16-bit text length, header + stream within the code area -/
+def compHolds (code : Bytes) (v : Nat) : Prop :=
+  v ≠ 0 ∧ code.length < 65536 ∧ 8 + (compress code).length ≤ codeAreaLen
 
 /-- the cart's code fits the 0x3d00-byte code area in the form picotool chooses -/
-def codeFits (code : Bytes) : Prop :=
-  if (compress code).length + 8 < code.length then code.length < 65536 ∧ 8 + (compress code).length ≤ codeAreaLen
-  else code.length ≤ codeAreaLen
+def codeFits (code : Bytes) (v : Nat) : Prop :=
+  if useCompressed code v = true then code.length < 65536 ∧ 8 + (compress code).length ≤ codeAreaLen
+  else ¬ (v = 0 ∧ (0 : UInt8) ∈ code) ∧ code.length ≤ codeAreaLen
 
-/-- **C04.raw_fit_never_refused**: code that fits the code area as plain text always fits in the form picotool
-chooses — choosing the compressed form never turns a cart that fits into one that is refused (defect 31: with the
-choice `compressed < raw` that ignored the header, text of up to 0x3d00 bytes whose stream was 1–7 bytes shorter was
-refused). -/
-theorem raw_fit_never_refused (code : Bytes) (h : code.length ≤ codeAreaLen) : codeFits code := by
-  unfold codeFits
-  have : codeAreaLen = 0x3d00 := rfl
-  split <;> omega
+/-- **C04.codeFits_iff**: "fits in the form picotool chooses" is the same as "some form of the format can hold it". The
+right-hand side does not mention the choice. -/
+theorem codeFits_iff (code : Bytes) (v : Nat) : codeFits code v ↔ rawHolds code v ∨ compHolds code v := by
+  have hA : codeAreaLen = 0x3d00 := rfl
+  unfold codeFits rawHolds compHolds
+  by_cases hv : v = 0
+  · subst hv
+    rw [if_neg (by rw [useCompressed_zero]; simp)]
+    simp
+  · by_cases hc : useCompressed code v = true
+    · rw [if_pos hc]
+      obtain ⟨_, hor⟩ := (useCompressed_iff code v).mp hc
+      constructor
+      · intro h; exact Or.inr ⟨hv, h⟩
+      · rintro (⟨hnul, hnc, hlen⟩ | ⟨_, h⟩)
+        · rcases hor with hlt | hraw
+          · omega
+          · have : rawOk code = true := (rawOk_iff code).mpr ⟨hnul, hnc.resolve_left hv⟩
+            rw [hraw] at this; cases this
+        · exact h
+    · rw [if_neg hc]
+      have hf : useCompressed code v = false := by simpa using hc
+      obtain ⟨hnul, hnc⟩ := rawOk_of_not_useCompressed code v hv hf
+      have hnlt : ¬ (compress code).length + 8 < code.length := fun hlt =>
+        hc ((useCompressed_iff code v).mpr ⟨hv, Or.inl hlt⟩)
+      constructor
+      · rintro ⟨_, hlen⟩; exact Or.inl ⟨hnul, Or.inr hnc, hlen⟩
+      · rintro (⟨_, _, hlen⟩ | ⟨_, _, h⟩)
+        · exact ⟨fun h => hv h.1, hlen⟩
+        · exact ⟨fun h => hv h.1, by omega⟩
 
-/-- **C04.codeFits_iff**: "fits in the form picotool chooses" is the same as "fits in *some* form": as plain text, or
-compressed behind the 8-byte header (whose length field has 16 bits). The right-hand side does not mention the choice. -/
-theorem codeFits_iff (code : Bytes) :
-    codeFits code ↔ code.length ≤ codeAreaLen ∨ (code.length < 65536 ∧ 8 + (compress code).length ≤ codeAreaLen) := by
-  unfold codeFits
-  have : codeAreaLen = 0x3d00 := rfl
-  split <;> omega
+/-- **C04.raw_fit_never_refused**: code that the uncompressed form can hold always fits in the form picotool chooses — choosing
+the compressed form never turns a cart that fits into one that is refused (defect 31). -/
+theorem raw_fit_never_refused (code : Bytes) (v : Nat) (h : rawHolds code v) : codeFits code v :=
+  (codeFits_iff code v).mpr (Or.inl h)
 
 /-- so such a cart is written (with `refuses`: the writer fails exactly when `codeFits` does not hold). -/
-theorem raw_fit_written (lbl : List (List UInt8)) (c : Cart) (h : c.code.length ≤ codeAreaLen) (hv : c.version < 256) :
+theorem raw_fit_written (lbl : List (List UInt8)) (c : Cart) (h : rawHolds c.code c.version) (hv : c.version < 256) :
     ∃ rows, toPixels lbl c = .ok rows := by
-  have hf := raw_fit_never_refused c.code h
+  have hf := raw_fit_never_refused c.code c.version h
   unfold codeFits at hf
-  have hcb : ∃ cb, getBytesFromCode c.code = .ok cb := by
-    by_cases hc : (compress c.code).length + 8 < c.code.length
+  have hcb : ∃ cb, getBytesFromCode c.code c.version = .ok cb := by
+    by_cases hc : useCompressed c.code c.version = true
     · rw [if_pos hc] at hf
-      exact ⟨_, getBytes_compressed c.code hc hf.1 hf.2⟩
+      exact ⟨_, getBytes_compressed c.code c.version hc hf.1 hf.2⟩
     · rw [if_neg hc] at hf
-      exact ⟨_, getBytes_raw c.code hc hf⟩
+      exact ⟨_, getBytes_raw c.code c.version hc hf.1 hf.2⟩
   obtain ⟨cb, hcb⟩ := hcb
   exact ⟨encRows lbl (picodata c cb), by
     simp [toPixels, hcb, bind, Except.bind, Nat.not_lt.mpr (Nat.le_of_lt_succ hv), pure, Except.pure]⟩
 
 /-- **C04.refuses**: a cart whose code does not fit is refused with an error, never written. -/
-theorem refuses (lbl : List (List UInt8)) (c : Cart) (h : ¬ codeFits c.code) :
+theorem refuses (lbl : List (List UInt8)) (c : Cart) (h : ¬ codeFits c.code c.version) :
     ∃ e, toPixels lbl c = .error e := by
-  obtain ⟨e, he⟩ := getBytes_error c.code h
+  obtain ⟨e, he⟩ := getBytes_error c.code c.version h
   exact ⟨e, by simp [toPixels, he, bind, Except.bind]⟩
 
-/-- **C04.code_area_compressed**: code stored compressed reads back exactly (CR -> space), for every
-version ≥ 1, under C05's guard. -/
-theorem code_area_compressed (code : Bytes) (v : Nat) (hv : v ≠ 0) (hc : storedCompressed code)
-    (hfit : codeFits code) (hg : C05.Guard code) :
-    ∃ area sz, getBytesFromCode code = .ok area ∧ area.length = codeAreaLen ∧
+/-- **C04.code_area_compressed**: code stored compressed reads back exactly (CR -> space), under C05's guard (the version is
+≥ 1 because the form was chosen). -/
+theorem code_area_compressed (code : Bytes) (v : Nat) (hc : storedCompressed code v)
+    (hfit : codeFits code v) (hg : C05.Guard code) :
+    ∃ area sz, getBytesFromCode code v = .ok area ∧ area.length = codeAreaLen ∧
       getCodeFromBytes area v = .ok (code.length, replaceCR code, some sz) := by
-  have hc' : (compress code).length + 8 < code.length := hc
+  have hc' : useCompressed code v = true := hc
+  have hv : v ≠ 0 := useCompressed_ne_zero code v hc'
   have ⟨h1, h2⟩ : code.length < 65536 ∧ 8 + (compress code).length ≤ codeAreaLen := by
     simpa [codeFits, hc'] using hfit
   obtain ⟨sz, hsz⟩ := getCode_compressed code
     (List.replicate (codeAreaLen - (8 + (compress code).length)) 0) v hv hg
-  refine ⟨_, sz, getBytes_compressed code hc' h1 h2, ?_, hsz⟩
+  refine ⟨_, sz, getBytes_compressed code v hc' h1 h2, ?_, hsz⟩
   simp only [List.length_append, header_length, List.length_replicate]
   omega
 
-/-- **C04.code_area_raw**: code stored raw reads back with a newline appended (CR -> space), provided
-it contains no NUL byte (the raw form is NUL-terminated) and is not exactly the three bytes `:c:` (which, followed
-by the zero padding, reads as a compressed-code header). -/
-theorem code_area_raw (code : Bytes) (v : Nat) (hc : ¬ storedCompressed code) (hfit : codeFits code)
-    (hnul : (0 : UInt8) ∉ code) (hnc : code ≠ [0x3a, 0x63, 0x3a]) :
-    ∃ area, getBytesFromCode code = .ok area ∧ area.length = codeAreaLen ∧
+/-- **C04.code_area_raw**: code stored raw reads back with a newline appended (CR -> space) — with no side condition: code
+with a NUL byte or the bare magic `:c:` is never stored raw in a cart whose reader would misread it (defects 32, 33). -/
+theorem code_area_raw (code : Bytes) (v : Nat) (hc : ¬ storedCompressed code v) (hfit : codeFits code v) :
+    ∃ area, getBytesFromCode code v = .ok area ∧ area.length = codeAreaLen ∧
       getCodeFromBytes area v = .ok (code.length, replaceCR (code ++ [10]), none) := by
-  have hc' : ¬ (compress code).length + 8 < code.length := hc
-  have h1 : code.length ≤ codeAreaLen := by simpa [codeFits, hc'] using hfit
-  refine ⟨_, getBytes_raw code hc' h1, ?_, getCode_raw code _ v (by omega) hnul hnc⟩
+  have hc' : ¬ useCompressed code v = true := hc
+  have ⟨h0, h1⟩ : ¬ (v = 0 ∧ (0 : UInt8) ∈ code) ∧ code.length ≤ codeAreaLen := by
+    unfold codeFits at hfit; rwa [if_neg hc'] at hfit
+  have hraw : (0 : UInt8) ∉ code ∧ (v = 0 ∨ code ≠ [0x3a, 0x63, 0x3a]) := by
+    by_cases hv : v = 0
+    · exact ⟨fun hm => h0 ⟨hv, hm⟩, Or.inl hv⟩
+    · have := rawOk_of_not_useCompressed code v hv (by simpa using hc')
+      exact ⟨this.1, Or.inr this.2⟩
+  refine ⟨_, getBytes_raw code v hc' h0 h1, ?_, getCode_raw code _ v (by omega) hraw.1 hraw.2⟩
   simp only [List.length_append, List.length_replicate]
   omega
 
@@ -115,26 +149,30 @@ theorem label_bits (lbl : List (List UInt8)) (w : Nat) (pico : Bytes) (h : WFLab
 
 /-- the cart as the reader returns it -/
 def normPng (c : Cart) : Cart :=
-  { c with code := if (compress c.code).length + 8 < c.code.length then replaceCR c.code else replaceCR (c.code ++ [10]),
+  { c with code := if useCompressed c.code c.version = true then replaceCR c.code else replaceCR (c.code ++ [10]),
            label := none }
 
-/-- **C04.fits_roundtrip**: writing any cart whose code fits and reading the pixels back yields identical
-data regions, version and code (trailing newline / CR normalisation), compressed or raw. -/
+/-- **C04.fits_roundtrip**: writing any cart whose code fits and reading the pixels back yields identical data regions,
+version and code (trailing newline / CR normalisation), compressed or raw, at every version; the only side condition is
+C05's guard for code stored compressed (the text does not itself end with PICO-8's compatibility suffix). -/
 theorem fits_roundtrip (lbl : List (List UInt8)) (w : Nat) (c : Cart) (hl : WFLabel lbl w) (hr : WFRegions c)
-    (hfit : codeFits c.code)
-    (hcomp : storedCompressed c.code → c.version ≠ 0 ∧ C05.Guard c.code)
-    (hraw : ¬ storedCompressed c.code → (0 : UInt8) ∉ c.code ∧ c.code ≠ [0x3a, 0x63, 0x3a]) :
+    (hfit : codeFits c.code c.version)
+    (hcomp : storedCompressed c.code c.version → C05.Guard c.code) :
     ∃ rows, toPixels lbl c = .ok rows ∧ fromPixels rows = .ok (normPng c) := by
   have hfrom := fun area hb ha n code sz => pixels_roundtrip lbl w c area hl.rows hl.room
     hr.gfx hr.gff hr.map hr.sfx hr.music hr.version hb ha n code sz
-  by_cases hc : storedCompressed c.code
-  · obtain ⟨hv, hg⟩ := hcomp hc
-    obtain ⟨area, sz, hb, ha, hcode⟩ := code_area_compressed c.code c.version hv hc hfit hg
-    have hc' : (compress c.code).length + 8 < c.code.length := hc
+  by_cases hc : storedCompressed c.code c.version
+  · have hg := hcomp hc
+    obtain ⟨area, sz, hb, ha, hcode⟩ := code_area_compressed c.code c.version hc hfit hg
+    have hc' : useCompressed c.code c.version = true := hc
     simpa [normPng, hc'] using hfrom area hb ha _ _ _ hcode
-  · obtain ⟨hnul, hnc⟩ := hraw hc
-    obtain ⟨area, hb, ha, hcode⟩ := code_area_raw c.code c.version hc hfit hnul hnc
-    have hc' : ¬ (compress c.code).length + 8 < c.code.length := hc
+  · obtain ⟨area, hb, ha, hcode⟩ := code_area_raw c.code c.version hc hfit
+    have hc' : useCompressed c.code c.version = false := by
+      simpa [storedCompressed] using hc
     simpa [normPng, hc'] using hfrom area hb ha _ _ _ hcode
+
+/-- non-vacuity: code with a NUL byte fits a version 8 cart (stored compressed) and is refused by a version 0 cart -/
+example : useCompressed [45, 45, 0, 10] 8 = true ∧ useCompressed [45, 45, 0, 10] 0 = false ∧
+    useCompressed [0x3a, 0x63, 0x3a] 8 = true ∧ useCompressed [0x3a, 0x63, 0x3a] 0 = false := by decide +kernel
 
 end Pico.C04
